@@ -53,6 +53,11 @@ def classify(scn, line):
     """Signature of a rejection, from the rejected event and cheap context (classification only)."""
     e = scn[line - 1]
     op = e["op"]
+    if op == "process.died":
+        err = e.get("stderr", "")
+        if "panic:" not in err and "fatal error:" not in err:
+            return "harness-error"       # the driver process ended for another reason (killed, time-out): not evidence
+        return "broker-process-died:" + ("decoder" if "mqtt-protocol" in err else "other")
     if op == "stall":
         return "stall:" + str(e.get("waiting_for", "")).split(" (")[0]
     if op == "harness-error":
@@ -105,7 +110,7 @@ def validate(run, prop, scns, tpath, verdict, max_rejections=4, chunk_events=400
         e = scn[line - 1]
         sig = classify(scn, line)
         if sig.startswith("harness-error"):
-            raise vlib.Inconclusive("harness error: %s" % json.dumps(e))
+            raise vlib.Inconclusive("harness error: %s" % json.dumps(e)[:1500])
         idx = scn[0]["scn"] - 1
         if sig.startswith("stall:") and 0 <= idx < len(scns) and not os.environ.get("VERIF_NO_STALL_RETRY"):
             # a stall is only evidence if it is not an artefact of a loaded machine: run the scenario once more, alone
@@ -115,11 +120,49 @@ def validate(run, prop, scns, tpath, verdict, max_rejections=4, chunk_events=400
                 if ok2:
                     run.notes.append("a stall in scenario %d did not reproduce when the scenario was re-run alone; ignored" % (idx + 1))
                     continue
+        scenario = scns[idx] if 0 <= idx < len(scns) else None
+        known = any(f.get("signature") == sig for f in verdict.known)
+        extra = {}
+        if scenario and not known and not verdict.violations and not os.environ.get("VERIF_NO_MINIMISE"):
+            small, tries = minimise(run, scenario, sig)
+            if len(small["ops"]) < len(scenario["ops"]):
+                extra = {"original_scenario": scenario, "minimised_in_runs": tries}
+                scenario = small
         verdict.add(sig, "broker trace: event %d %s is not a step of the broker specification; preceding events: %s"
                     % (line, json.dumps(e), json.dumps(context(scn, line - 1))),
-                    {"kind": "broker", "scenario": scns[idx] if 0 <= idx < len(scns) else None, "rejected": e,
-                     "trace": context(scn, line, 60)})
+                    dict({"kind": "broker", "scenario": scenario, "rejected": e, "trace": context(scn, line, 60)}, **extra))
     return nev, nscn, validated, rejected, tstates
+
+
+def minimise(run, scenario, sig, budget=40):
+    """Rule V2: drop operations of a rejected scenario while the same rejection (signature) persists on the real code.
+    One greedy pass from the end; every candidate is re-executed and re-validated.  Used for the first new violation only."""
+    ops = list(scenario["ops"])
+    tries = 0
+    i = len(ops) - 1
+    while i >= 0 and tries < budget:
+        if ops[i]["op"] in ("quiesce",):
+            i -= 1
+            continue
+        cand = dict(scenario, ops=ops[:i] + ops[i + 1:])
+        tries += 1
+        try:
+            tp, cr = execute(run, [cand], "min%d" % tries, shards=1)
+            if cr:
+                same = sig.startswith("broker-process-died")
+            else:
+                ok, line, detail, _ = run.validate("BrokerTrace", "BrokerTrace.cfg", tp)
+                if ok:
+                    same = False
+                else:
+                    ev = vlib.load_events(tp)
+                    same = classify(ev, line) == sig
+        except vlib.Inconclusive:
+            same = False
+        if same:
+            ops = cand["ops"]
+        i -= 1
+    return dict(scenario, ops=ops), tries
 
 
 def replay(run, prop, path):
